@@ -357,23 +357,32 @@ StGroup(q, data, rows) ==
 IsAllAggr(q) == /\ q.sel # <<>>
                 /\ \A i \in DOMAIN q.sel : q.sel[i].k = "item" /\ q.sel[i].e.k = "agg"
 
-\* one projected row
+\* FUSE(obj) as a select item blends the keys of obj into the output row - under "<alias>.<key>" when the item has an
+\* alias (SelectExpr); FUSE(NULL) is an ordinary NULL column
+IsFuse(it) == it.k = "item" /\ it.e.k = "fn" /\ it.e.f = "fuse" /\ ~("qual" \in DOMAIN it.e)
+FuseName(it, k) == IF it.as = "" THEN k ELSE it.as \o "." \o k
+
+\* the columns select item i contributes to the output row (a function name -> value): a star all columns of the source
+\* row, an item whose value is the omit marker (SETVAR, SPIN ...) none, a FUSE item the keys of its object, any other
+\* item the one column that carries its name
+Contrib(q, row, vals, i) ==
+    LET it == q.sel[i] IN
+    IF it.k = "star" THEN NoMarker(row).f
+    ELSE IF vals[i].t = "omit" THEN [x \in {} |-> Null]
+    ELSE IF IsFuse(it) /\ IsObj(vals[i])
+         THEN LET ks == Keys(vals[i])
+              IN  [x \in {FuseName(it, k) : k \in ks} |-> vals[i].f[CHOOSE k \in ks : FuseName(it, k) = x]]
+    ELSE [x \in {ItemName(it)} |-> vals[i]]
+
+\* one projected row: the items write their columns in select-list order, a later one over an earlier one
 Project(q, data, row) ==
     LET vals == [i \in 1..Len(q.sel) |->
                     IF q.sel[i].k = "star" THEN Null ELSE Ev(q.sel[i].e, row, data)]
-        \* an item whose value is the omit marker (SETVAR, SPIN ...) contributes no column
-        live  == {j \in DOMAIN q.sel : q.sel[j].k = "item" /\ vals[j].t # "omit"}
-        names == {ItemName(q.sel[i]) : i \in live}
-        stars == IF \E i \in DOMAIN q.sel : q.sel[i].k = "star" THEN Keys(NoMarker(row)) ELSE {}
-        \* later items overwrite earlier ones with the same name
-        last(nm) == CHOOSE i \in live :
-                       /\ ItemName(q.sel[i]) = nm
-                       /\ \A j \in live : ItemName(q.sel[j]) = nm => j <= i
-        starAfter(nm) == \E i \in DOMAIN q.sel : q.sel[i].k = "star" /\ i > last(nm)
+        c(i)  == Contrib(q, row, vals, i)
+        names == UNION {DOMAIN c(i) : i \in DOMAIN q.sel}
+        last(x) == CHOOSE i \in DOMAIN q.sel : x \in DOMAIN c(i) /\ \A j \in DOMAIN q.sel : x \in DOMAIN c(j) => j <= i
     IN  IF AnyErr(vals) THEN Err
-        ELSE ObjV([x \in names \cup stars |->
-                      IF x \in names /\ ~(x \in stars /\ starAfter(x)) THEN vals[last(x)]
-                      ELSE row.f[x]])
+        ELSE ObjV([x \in names |-> c(last(x))[x]])
 
 StSelect(q, data, rows) ==
     IF q.group = <<>> /\ IsAllAggr(q)
